@@ -482,6 +482,12 @@ static rc::Gen<Case> gen_variant(int variant) {
     c.push_back(Op("s", {}, method));
     c.push_back(Op("s", {}, *gen_over(UNRES, gen_len())));  // bucket / service / operation
     c.push_back(Op("s", {}, *gen_path()));
+    if (*range<int>(0, 11) == 0) c.push_back(Op("tf", {*rc::gen::weightedElement<int>({{5, 0}, {2, 1}, {1, 2}})}));  // the clock cannot be read
+    if (*range<int>(0, 15) == 0) {  // several long fields at once (every formatted string then passes several sizes together)
+      for (size_t i : {(size_t)3, (size_t)5})
+        c[i] = Op("s", {}, *gen_over(UNRES, range<int>(100, 200)));
+      if (*range<int>(0, 1)) c[1] = Op("s", {}, *gen_over(UNRES, range<int>(100, 200)));
+    }
     return c;
   });
 }
@@ -531,6 +537,10 @@ static Outcome run_variant(const Case &c) {
   if (variant == 1) bodykind = 0, body.clear();
 
   // ---- call the library
+  int tfail = -1;
+  for (size_t i = 1; i < c.size(); i++)
+    if (c[i].k == "tf" && !c[i].a.empty()) tfail = (int)std::max<int64_t>(0, std::min<int64_t>(c[i].a[0], 3));
+  shim_time_fail_at(tfail);
   shim_time_set(t0, step);
   char *k1 = cstr(key_id), *k2 = cstr(secret), *k3 = cstr(region), *k4 = cstr(method), *k5 = cstr(name), *k6 = cstr(path);
   uint8_t *bp = nullptr;
@@ -547,6 +557,7 @@ static Outcome run_variant(const Case &c) {
   // History: in half of the cases with a body the same buffer (same address, same length) has just been signed with OTHER contents --
   // an application re-using its upload buffer.  Results must not depend on what was signed before.
   bool primed = bodykind == 2 && variant != 1 && ((seed >> 3) & 1);
+  if (tfail >= 0) primed = false;
   if (primed) {
     std::string other = prbytes(seed ^ 0x5eed, body.size());
     if (other == body) other[0] ^= 1;
@@ -566,6 +577,21 @@ static Outcome run_variant(const Case &c) {
   default: rc = shim_dynamodb_headers(k1, k2, k3, k5, bp, bl, &sha, &date, &auth); break;
   }
   int ncalls = shim_time_calls();
+  shim_time_fail_at(-1);
+  if (tfail >= 0 && ncalls > tfail) {
+    // the clock failed while the request was being signed: the call must report failure, whatever it had computed so far
+    free(k1), free(k2), free(k3), free(k4), free(k5), free(k6);
+    free(bp);
+    o.cls("time()-fails");
+    o.nontrivial = true;
+    if (rc == 0) {
+      o.fail("clock-failure-ignored", std::string("aws_sign_") + VNAME[variant] + ": time() call #" + std::to_string(tfail) + " returned (time_t)-1 but the function reported success" +
+                                          (variant == 1 ? std::string(" (query string \"") + (qs ? qs : "") + "\")" : std::string(" (x-amz-date \"") + (date ? date : "") + "\")"));
+      free(sha), free(date), free(auth);
+    }
+    free(qs);
+    return o;
+  }
   free(k1), free(k2), free(k3), free(k4), free(k5), free(k6);
   free(bp);
   std::string r_sha = sha && rc == 0 ? sha : "", r_date = date && rc == 0 ? date : "", r_auth = auth && rc == 0 ? auth : "", r_qs = qs ? qs : "";
